@@ -414,6 +414,33 @@ func runC10(r *Run) {
 			}
 		}
 	})
+
+	r.rule("R5", "the trusted set is what the operator wrote: a range is parsed from the configured text itself, a single address is trusted by identity (E3)", func() {
+		f := r.Fn("", "(*App).handleTrustedProxy")
+		var cfgText *ssa.Parameter
+		for _, p := range f.Params {
+			if b, ok := p.Type().Underlying().(*types.Basic); ok && b.Info()&types.IsString != 0 {
+				cfgText = p
+			}
+		}
+		r.need(cfgText != nil, "handleTrustedProxy(address string)")
+		n := 0
+		for _, c := range callsMatching(f, false, nameIs("net.ParseCIDR")) {
+			n++
+			r.check(flowsUnchanged(c.Common.Args[0], cfgText), fmt.Sprintf("handleTrustedProxy:ParseCIDR#%d:configured-text", n), r.pos(c.Instr), "the range is parsed from the configured entry as written",
+				"a CIDR is built from the configured entry (e.g. by appending \"/32\") instead of being parsed from it: for an IPv6 proxy address /32 covers 2^96 neighbours, all of which are then trusted with their forwarding headers")
+		}
+		r.atLeast("ParseCIDR call sites", n, 1)
+		// single addresses: the ips set is keyed by something derived from the configured entry
+		ipsWrites := 0
+		for _, in := range instrsWhere(f, func(in ssa.Instruction) bool { _, ok := in.(*ssa.MapUpdate); return ok }) {
+			mu := in.(*ssa.MapUpdate)
+			if loadOfField(mu.Map, "TrustProxyConfig.ips") {
+				ipsWrites++
+			}
+		}
+		r.check(ipsWrites >= 1, "handleTrustedProxy:single-address-by-identity", r.fpos(f), "single addresses are recorded in the ips set", "single proxy addresses are no longer recorded by identity")
+	})
 }
 
 // listCuts: true edges of the explicit membership tests (ips map lookup ok, ipNet.Contains).
